@@ -225,6 +225,20 @@ FCGI_FD = 47
 FDNAME = {40: 'ChildStdin', 43: 'ChildStdout', 45: 'ChildStderr', 47: 'FcgiSock'}
 
 
+def alloc_pipes(closed):
+    """The descriptor numbers ServerOptions.make_pipes() obtains when supervisord has exactly the
+    descriptors in `closed` (a subset of {0, 1, 2}) closed: os.pipe() hands out the lowest free
+    numbers, in the order child_stdin, stdin, stdout, child_stdout, stderr, child_stderr."""
+    free = sorted(closed) + list(range(50, 60))
+    names = ['child_stdin', 'stdin', 'stdout', 'child_stdout', 'stderr', 'child_stderr']
+    return dict(zip(names, free[:6]))
+
+
+def fdname_of(pipes):
+    return {pipes['child_stdin']: 'ChildStdin', pipes['child_stdout']: 'ChildStdout',
+            pipes['child_stderr']: 'ChildStderr', FCGI_FD: 'FcgiSock'}
+
+
 def make_process(cfg):
     """A real Subprocess/FastCGISubprocess on a real ProcessConfig and a real
     ServerOptions instance, configured from the plain dict `cfg`."""
@@ -233,6 +247,9 @@ def make_process(cfg):
     options = ServerOptions()
     options.minfds = cfg['minfds']
     options.serverurl = cfg['options_serverurl']
+    # [supervisord] directory configured like the program's: the child must chdir all the same (the
+    # daemon need not be there: foreground mode, failed chdir while daemonizing)
+    options.directory = cfg['directory']
     params = dict(
         name=cfg['name'], uid=cfg['uid'], command=cfg['file'], directory=cfg['directory'], umask=cfg['umask'],
         priority=999, autostart=True, autorestart=True, startsecs=1, startretries=3,
@@ -250,7 +267,7 @@ def make_process(cfg):
         pconfig = ProcessConfig(options, **params)
         proc = Subprocess(pconfig)
     proc.group = _Group(cfg['group']) if cfg['group'] is not None else None
-    proc.pipes = dict(PIPES)
+    proc.pipes = dict(cfg.get('pipes') or PIPES)
     return proc
 
 
